@@ -176,6 +176,27 @@ def edge_case(blocks, fe, gpol, key, expect=()):
     return c
 
 
+# one fixed tape per input class with an open finding (known_findings.json edges:zp-*): whatever the seed, each finding is
+# reproduced (KNOWN-FINDING line) - and a repair shows as the line disappearing
+KNOWN_PROBES = (
+    # zp-lead: PULS 100 / PAUS 1000 / DATA 1 bit whose first pulse has length 0
+    [blk(pulses=[(1, 100)]), blk(pause=1000), blk(data=[0x80], zero=(3, 0), one=(0, 3), used=1)],
+    # zp-tail: a tail pulse after an odd number of zero-length pulses, then another pulse
+    [blk(data=[0x00], zero=(2, 0), one=(0, 2), used=1, tail=5), blk(pulses=[(1, 9)])],
+    # zp-silent: the last block is sample data without any pulse of positive length; the earlier block's end index
+    [blk(data=[1], zero=(1, 1), one=(5, 1), used=7, tail=5, pol=1), blk(data=[1], zero=(0,), one=(5,), used=1, pol=0)],
+)
+
+
+def probe_cases():
+    out = []
+    for blocks in KNOWN_PROBES:
+        c = edge_case([dict(b) for b in blocks], 0, 0, hazards(blocks))
+        c['family'] = 'probe'
+        out.append(c)
+    return out
+
+
 # ------------------------------------------------------------------ generators of file-expressible tapes
 SMALL = (0, 1, 2, 3, 5)
 WIDTHS = (0, 1, 2, 3, 5, 100, 667, 735, 855, 1710, 2168, 32767, 32768, 65535)
